@@ -150,10 +150,11 @@ UnpackFrom(x, i, blocks, start, end, cur, drop) ==          \* cur = [ids, len];
              st1  == IF gap THEN r.a ELSE IF start = -1 THEN r.a ELSE start
              cur2 == [ids |-> AppendIds(cur1.ids, r.id + 1, r.n - 1), len |-> cur1.len + (r.n - 1) * r.len]
          IN  UnpackFrom(x, i + 1, b1, st1, r.a + r.n * r.len, cur2, drop)
-RECURSIVE InsertBlock(_, _)
-InsertBlock(sorted, b) == IF sorted = <<>> THEN <<b>>
-                          ELSE IF b.adr < sorted[1].adr THEN <<b>> \o sorted
-                          ELSE <<sorted[1]>> \o InsertBlock(Tail(sorted), b)
+\* insertion by address without recursion (blocks of a file in address order are appended)
+InsertBlock(sorted, b) ==
+    IF sorted = <<>> \/ sorted[Len(sorted)].adr < b.adr THEN Append(sorted, b)
+    ELSE LET p == Cardinality({j \in 1..Len(sorted) : sorted[j].adr < b.adr})
+         IN  SubSeq(sorted, 1, p) \o <<b>> \o SubSeq(sorted, p + 1, Len(sorted))
 RECURSIVE SortBlocks(_, _, _)
 SortBlocks(bs, i, acc) == IF i > Len(bs) THEN acc ELSE SortBlocks(bs, i + 1, InsertBlock(acc, bs[i]))
 \* blocks sorted by address: sequence of [adr, len, ids]
@@ -193,6 +194,55 @@ ParseLines(ls, i, fw, out) ==
              ELSE ParseLines(ls, i + 1, Append(fw, l.run), out)
          ELSE ParseLines(ls, i + 1, fw, Append(out, Item(l.k, l.name, l.s, l.text, l.bytes, <<>>)))
 ExpandItems(items) == Mat([i \in 1..Len(items) |-> IF items[i].k = "grp" THEN [items[i] EXCEPT !.runs = ExpandRuns(@, 1)] ELSE items[i]], Len(items))
+
+\* ------------------------------------------------------------------ (a') the same grammar on the characters of the file
+\* a text line (with its newline) -> [k, name, val, params, ty, idx, tag, raw];  k = "skip" | "err" | "data" | "ins" | "cmt"
+TL(k, name, val, params, ty, idx, tag, raw) == [k |-> k, name |-> name, val |-> val, params |-> params, ty |-> ty, idx |-> idx, tag |-> tag, raw |-> raw]
+TLErr == TL("err", <<>>, <<>>, <<>>, 0, 0, <<>>, <<>>)
+RECURSIVE FirstSpace(_, _)
+FirstSpace(x, j) == IF j > Len(x) \/ IsSpace(x[j]) THEN j ELSE FirstSpace(x, j + 1)
+RECURSIVE ParamsFrom(_, _, _)
+ParamsFrom(ps, j, acc) ==                                   \* dict(p.strip().split("=") for p in params_str.split(",") if p)
+    IF j > Len(ps) THEN [ok |-> TRUE, d |-> acc]
+    ELSE IF ps[j] = <<>> THEN ParamsFrom(ps, j + 1, acc)
+    ELSE LET kv == SplitOn(Strip(ps[j]), 61) IN
+         IF Len(kv) # 2 THEN [ok |-> FALSE, d |-> <<>>] ELSE ParamsFrom(ps, j + 1, PutComment(acc, kv[1], kv[2]))
+TextLine(line) ==
+    IF Len(line) >= 1 /\ line[1] = 58 THEN                  \* `:` idx(2) type(1) len(1) tag(len) ...
+        LET h == HexDecode(line) IN
+        IF ~h.ok \/ Len(h.bin) < 4 THEN TLErr
+        ELSE IF Len(h.bin) < 4 + h.bin[4] THEN TLErr
+        ELSE TL("data", <<>>, <<>>, <<>>, h.bin[3], h.bin[1] * 256 + h.bin[2], SubSeq(h.bin, 5, 4 + h.bin[4]), h.bin)
+    ELSE IF Len(line) >= 2 /\ line[1] = 35 /\ line[2] = 62 THEN        \* `#>CMD k=v,...`
+        LET x == SubSeq(line, 3, Len(line))
+            a == LStrip(x, 1) IN
+        IF a > Len(x) THEN TLErr
+        ELSE LET b == FirstSpace(x, a)
+                 c == LStrip(x, b)
+                 ps == IF c > Len(x) THEN <<>> ELSE SplitOn(SubSeq(x, c, Len(x)), 44)
+                 pr == ParamsFrom(ps, 1, <<>>)
+             IN  IF ~pr.ok THEN TLErr ELSE TL("ins", SubSeq(x, a, b - 1), <<>>, pr.d, 0, 0, <<>>, <<>>)
+    ELSE IF Len(line) >= 2 /\ line[1] = 35 /\ line[2] = 35 THEN        \* `##name: value`
+        LET parts == SplitOn(SubSeq(line, 3, Len(line)), 58) IN
+        IF Len(parts) # 2 THEN TLErr ELSE TL("cmt", parts[1], Strip(parts[2]), <<>>, 0, 0, <<>>, <<>>)
+    ELSE TL("skip", <<>>, <<>>, <<>>, 0, 0, <<>>, <<>>)
+TextLines(t) == LET nls == SelectSeq(Mat([j \in 1..Len(t) |-> j], Len(t)), LAMBDA j : t[j] = 10)
+                    n == Len(nls) + 1
+                IN  Mat([j \in 1..n |-> SubSeq(t, IF j = 1 THEN 1 ELSE nls[j - 1] + 1, IF j <= Len(nls) THEN nls[j] ELSE Len(t))], n)
+Obj(k, name, val, params, lines) == [k |-> k, name |-> name, val |-> val, params |-> params, lines |-> lines]
+RECURSIVE ParseTextFrom(_, _, _, _)
+ParseTextFrom(ls, j, fw, out) ==
+    IF j > Len(ls) THEN [ok |-> TRUE, objs |-> out]
+    ELSE LET l == TextLine(ls[j]) IN
+         IF l.k = "err" THEN [ok |-> FALSE, objs |-> <<>>]
+         ELSE IF l.k = "skip" THEN ParseTextFrom(ls, j + 1, fw, out)
+         ELSE IF l.k = "data" THEN
+             (IF l.ty = 255 THEN (IF fw # <<>> THEN ParseTextFrom(ls, j + 1, <<>>, Append(out, Obj("load", <<>>, <<>>, <<>>, fw)))
+                                  ELSE ParseTextFrom(ls, j + 1, fw, out))
+              ELSE IF l.ty = 254 THEN ParseTextFrom(ls, j + 1, fw, out)
+              ELSE ParseTextFrom(ls, j + 1, Append(fw, <<l.ty, l.idx, l.tag, l.raw>>), out))
+         ELSE ParseTextFrom(ls, j + 1, fw, Append(out, Obj(l.k, l.name, l.val, l.params, <<>>)))
+ParseText(t) == ParseTextFrom(TextLines(t), 1, <<>>, <<>>)
 
 \* ------------------------------------------------------------------ (b) instructions and the section machine
 Absent == [has |-> FALSE, text |-> <<>>]
